@@ -351,3 +351,31 @@ def size_bucket(n):
         if n <= lim:
             return f'<={lim}'
     return '>256'
+
+
+def replay_correspondence(data):
+    """re-run a stored correspondence disagreement: the real code and the Lean driver on the same line"""
+    line = data.get('line')
+    s = data.get('input') or {}
+    out = dict(line=line, stored_impl=data.get('observed_impl'), stored_model=data.get('observed_model'))
+    try:
+        out['model_now'] = core.run_driver([line])[0]
+    except Exception as e:
+        out['model_now'] = f'driver failed: {e}'
+    toks = (line or '').split()
+    try:
+        if toks[:2] == ['body', 'read']:
+            cl, ch, buf, mx, dat, sched = toks[2:8]
+            res = run_read(core.unhb(dat), [int(x) for x in sched.split(',')] if sched != '-' else [], int(buf), int(cl),
+                           ch == '1', None if mx == '~' else int(mx))
+            out['impl_now'] = ans_read(res)
+        elif toks[:2] == ['body', 'wsgi']:
+            mk, mem, mx, clh, te, dat, sched, ops = toks[2:10]
+            res = run_wsgi(mk, int(mem), None if mx == '~' else int(mx), None if clh == '~' else core.unhs(clh),
+                           None if te == '~' else core.unhs(te), core.unhb(dat),
+                           [int(x) for x in sched.split(',')] if sched != '-' else [], [] if ops == '-' else ops.split(','))
+            out['impl_now'] = ans_wsgi(res)
+    except Exception as e:
+        out['impl_now'] = f'failed: {type(e).__name__}: {e}'
+    out['agree_now'] = out.get('impl_now') == out.get('model_now')
+    return out
